@@ -505,6 +505,9 @@ func splitNonEscaped(s string, sep byte) []string {
 // getMatch parses the passed url and tries to match it against the route segments and determine the parameter positions
 func (parser *routeParser) getMatch(detectionPath, path string, params *[maxParams]string, partialCheck bool) bool { //nolint:revive // Accepting a bool param is fine here
 	var i, paramsIterator, partLen int
+	// the values are collected aside and handed over only when the whole route matches,
+	// a route that is merely probed leaves the values of the route in progress alone
+	var found [maxParams]string
 	for _, segment := range parser.segs {
 		partLen = len(detectionPath)
 		// check const segment
@@ -523,13 +526,13 @@ func (parser *routeParser) getMatch(detectionPath, path string, params *[maxPara
 			if !segment.IsOptional && i == 0 {
 				return false
 			}
-			// take over the params positions
-			params[paramsIterator] = path[:i]
+			// note the params positions
+			found[paramsIterator] = path[:i]
 
 			if !(segment.IsOptional && i == 0) {
 				// check constraint
 				for _, c := range segment.Constraints {
-					if matched := c.CheckConstraint(params[paramsIterator]); !matched {
+					if matched := c.CheckConstraint(found[paramsIterator]); !matched {
 						return false
 					}
 				}
@@ -546,6 +549,8 @@ func (parser *routeParser) getMatch(detectionPath, path string, params *[maxPara
 	if detectionPath != "" && !partialCheck {
 		return false
 	}
+	// take over the params positions
+	copy(params[:paramsIterator], found[:paramsIterator])
 
 	return true
 }
